@@ -19,7 +19,7 @@ META = {
                  "correspondence batches (coordinates of all live objects and buffer-identity classes after every step)",
     "level_text": "Machine-checked Coq theorems about an executable heap model of mesh.py (copy, merge, from_arrays), "
                   "transform.py, rings.py, _prepare_vertices and Vec(x), for every operation history and over every "
-                  "(ordered) field of coordinates, after seven fix: commits: a copy equals its source, uses fresh buffers and "
+                  "(ordered) field of coordinates, after nine fix: commits: a copy equals its source, uses fresh buffers and "
                   "stays isolated from it under any later history of writes; merge concatenates the vertices, shifts the "
                   "indices of input k by the running vertex count, takes the largest dimensionality and uses fresh, pairwise "
                   "distinct buffers even when one mesh is merged twice; 'no two vertex ids share a buffer' is an invariant of "
@@ -124,7 +124,7 @@ def encode_case(case, steps):
             if not all(same_info(infos[m], si) for m, si in zip(srcs, info["src"])):
                 break
         if name == "arr":
-            t = "(ONew %s [] [] [] corn0 (-1))" % coq_list(["(IFresh %s)" % vl(p) for p in new["xyz"]])
+            t = "(ONew false %s [] [] [] corn0 (-1))" % coq_list(["(IFresh %s)" % vl(p) for p in new["xyz"]])
         elif name == "from_arrays":
             t = "(OFromArrays %s %s %s %s %s %s)" % (nat(op[1]), zll(info["edges"]), zll(info["faces"]), zll(info["cells"]),
                                                      corn(info), zlit(info["kind"]))
@@ -142,8 +142,10 @@ def encode_case(case, steps):
                     pat.append("(IShare %s %s)" % (nat(where[c][0]), nat(where[c][1])))
                 else:
                     pat.append("(IFresh %s)" % vl(p))
-            t = "(ONew %s %s %s %s %s %s)" % (coq_list(pat), zll(info["edges"]), zll(info["faces"]), zll(info["cells"]), corn(info),
-                                             zlit(info["kind"]))
+            # built through RawMeshData.prepare()?  (PointCloud.append and extract_boundary_of_surface are not)
+            prep = not (name == "proc" and op[1] == "pointcloud") and not (name == "border" and infos[op[1]]["kind"] == 2)
+            t = "(ONew %s %s %s %s %s %s %s)" % (coq_bool(prep), coq_list(pat), zll(info["edges"]), zll(info["faces"]),
+                                                zll(info["cells"]), corn(info), zlit(info["kind"]))
         elif name == "copy":
             t = "(OCopy %s %s)" % (nat(op[1]), coq_bool(op[2]))
             # every container of the copy against what was observed on the source (NewSame: the two observations are
